@@ -197,6 +197,10 @@ func runEntry(t *rapid.T, st *propStats, entry string, input []byte, what string
 		t.Fatalf("harness: unknown entry %s", entry)
 	}
 	journal(entry, input)
+	// hand over a slice without spare capacity (as produced by base64 decoding or make): reads past the end then fault
+	exact := make([]byte, len(input))
+	copy(exact, input)
+	input = exact
 	if perr := callNoPanic(func() { f(input) }); perr != nil {
 		t.Fatalf("C19 %s panicked on %s\n input (%d bytes): %s\n %v", entry, what, len(input), clip(string(input), 3000), perr)
 	}
@@ -407,8 +411,28 @@ func TestC19_Corruptions(t *testing.T) {
 					b = b[:pos]
 				}
 			}
+			// cut inside an escape sequence / literal / number (the places where a scanner reads ahead)
+			if rapid.IntRange(0, 3).Draw(t, "cutInsideToken") == 0 {
+				var cuts []int
+				for _, tok := range []string{`\u`, `\`, "tru", "fals", "nul", "e+", "."} {
+					for off := 0; ; {
+						i := strings.Index(string(b[off:]), tok)
+						if i < 0 {
+							break
+						}
+						cuts = append(cuts, off+i+len(tok))
+						off += i + 1
+					}
+				}
+				if len(cuts) > 0 {
+					c := cuts[rapid.IntRange(0, len(cuts)-1).Draw(t, "cutAt")] + rapid.IntRange(0, 3).Draw(t, "cutExtra")
+					if c < len(b) {
+						b = b[:c]
+					}
+				}
+			}
 			runEntry(t, st, "Bytes", b, kind)
-			nontrivial = json.Valid(b)
+			nontrivial = json.Valid(b) || len(b) > 2
 		}
 		st.Case(nontrivial, desc, "target-"+kind)
 		st.Sample(kind, 1, func() interface{} { return map[string]interface{}{"target": kind, "what": clip(desc, 400)} })
@@ -496,6 +520,9 @@ func fuzzEntry(f *testing.F, entry string, seeds [][]byte) {
 			return
 		}
 		journal(entry, data)
+		exact := make([]byte, len(data))
+		copy(exact, data)
+		data = exact
 		if perr := callNoPanic(func() { fn(data) }); perr != nil {
 			t.Fatalf("C19 fuzz %s panicked: %v", entry, perr)
 		}
